@@ -2,7 +2,7 @@
    This file holds statements only; every proof is `exact <lemma>` into Proofs/. *)
 From Coq Require Import ZArith List Bool.
 Import ListNotations.
-Require Import PV.Lib.Bytes PV.Model.Wire PV.Spec.Rfc4880_wire PV.Proofs.Wire_lemmas PV.Proofs.Wire_lemmas2.
+Require Import PV.Lib.Bytes PV.Model.Wire PV.Spec.Rfc4880_wire PV.Proofs.Wire_lemmas PV.Proofs.Wire_lemmas2 PV.Proofs.Wire_lemmas3.
 Open Scope Z_scope.
 
 (* every representable new-format length round-trips, leaving following data untouched *)
@@ -38,6 +38,13 @@ Proof. exact partial_reassembly. Qed.
 Print Assumptions C09_partial_reassembly.
 Example C09_partial_premises : Forall chunk_ok [(1, [7; 8]); (0, [9])].
 Proof. repeat (constructor; [split; cbn; [split|]; try reflexivity; discriminate|]). constructor. Qed.
+
+(* the fuel of the partial-length loop is never what stops it: a `None` of the model is always the IndexError of the
+   Python loop (running off the end of the buffer), for EVERY input *)
+Theorem C09_partial_loop_fuel_irrelevant : forall f1 f2 b total,
+  (f1 > length b - total)%nat -> (f2 > length b - total)%nat -> partial_loop f1 b total = partial_loop f2 b total.
+Proof. exact partial_loop_fuel_irrelevant. Qed.
+Print Assumptions C09_partial_loop_fuel_irrelevant.
 
 (* old-format header: never narrower than the value needs, whatever width was stored *)
 Theorem C09_old_header_never_narrow : forall t n st body,
